@@ -263,3 +263,14 @@ Theorem C02_code_root_binds_leaves : forall (H256 : bytes -> bytes), (forall x, 
   l = l' \/ (exists x y : bytes, x <> y /\ H256 x = H256 y).
 Proof. exact merkle_root_binds. Qed.
 Print Assumptions C02_code_root_binds_leaves.
+
+(* ... and for the zero-padded tree BEP 52 prescribes: two block-hash lists of the same length n <= 2^h (two files
+   of the same size) under one pieces root are the same list, or H256 collides *)
+Theorem C02_padded_root_binds_leaves : forall (H256 : bytes -> bytes), (forall x, length (H256 x) = 32%nat) ->
+  forall (h : nat) (ls ls' : list bytes),
+  length ls = length ls' -> (length ls <= 2 ^ h)%nat ->
+  Forall (fun x => length x = 32%nat) ls -> Forall (fun x => length x = 32%nat) ls' ->
+  tree_root H256 h (pad_leaves (2 ^ h) ls) = tree_root H256 h (pad_leaves (2 ^ h) ls') ->
+  ls = ls' \/ (exists x y : bytes, x <> y /\ H256 x = H256 y).
+Proof. exact padded_root_binds. Qed.
+Print Assumptions C02_padded_root_binds_leaves.
